@@ -79,11 +79,12 @@ package masswallet
 // ---- C10: withdrawal inputs carry the sequence consensus requires; C19: no panic for any input list ----
 //@ define seqOK(pks, seq, lockTime, warm) = ((pks.IsStaking() ==> seq == pks.Maturity()) && (!pks.IsStaking() && pks.IsBinding() && warm ==> seq == consensus.MASSIP0002BindingLockedPeriod) && (!pks.IsStaking() && !(pks.IsBinding() && warm) ==> (lockTime != 0 ==> seq == wire.MaxTxInSequenceNum-1) && (lockTime == 0 ==> seq == wire.MaxTxInSequenceNum)))
 //@ func (*WalletManager).constructTxIn
-//@   props C10 C19
+//@   props C10 C19 C02
 //@   requires wmWF(w)
 //@   requires forall qi_ int :: 0 <= qi_ && qi_ < len(inputs) ==> inputs[qi_] != nil
 //@   modifies rollbacks()
 //@   at "mtx.AddTxIn(txIn)" assert[C10] seqOK(pks, txIn.Sequence, lockTime, block != nil && forks.EnforceMASSIP0002WarmUp(block.Height))
+//@   at "mtx.AddTxIn(txIn)" assert[C02] ghostb("ownsAddr", w.ksmgr.CurrentKeystore(), pks.StdEncodeAddress())
 //@   loop#1 invariant mtx != nil && fresh(mtx) && len(mtx.TxIn) == iter_ && (mtx.TxIn == nil || fresh(mtx.TxIn)) && len(senders) == iter_ && fresh(senders) && validAmt(totalValue)
 //@   ensures[C10] result3 == nil ==> result0 != nil && len(result0.TxIn) == len(inputs) && len(result1) == len(inputs)
 //@ func (*NtfnsHandler).onRelevantTx
@@ -133,7 +134,13 @@ package masswallet
 //@   props C02 C19
 //@   requires wmWF(w) && config.ChainParams != nil && txWF(msgTx) && validAmt(userTxFee)
 //@   modifies &msgTx.TxIn, msgTx.TxIn, &msgTx.TxOut, msgTx.TxOut, rollbacks()
+//@   ensures[C02] err == nil ==> len(msgTx.TxOut) == old(len(msgTx.TxOut)) || len(msgTx.TxOut) == old(len(msgTx.TxOut)) + 1
+//@   ensures[C02] err == nil ==> forall qj_ int :: 0 <= qj_ && qj_ < old(len(msgTx.TxOut)) ==> msgTx.TxOut[qj_] == old(msgTx.TxOut[qj_])
+//@   ensures[C02] err == nil ==> validAmt(fee) && amt(fee) >= amt(userTxFee) && (amt(userTxFee) == 0 ==> amt(fee) >= amt(massutil.MinRelayTxFee()))
 //@   loop#1 invariant validAmt(outAmounts)
+//@   loop#2 invariant amt(targetTxFee) >= amt(userTxFee) && (amt(userTxFee) == 0 ==> amt(targetTxFee) >= amt(massutil.MinRelayTxFee()))
 //@   loop#2 invariant validAmt(outAmounts) && validAmt(targetTxFee) && txWF(msgTx) && (sameBlock(msgTx.TxIn, old(msgTx.TxIn)) || fresh(msgTx.TxIn)) && sameSlice(msgTx.TxOut, old(msgTx.TxOut))
+//@   loop#2 invariant forall qj_ int :: 0 <= qj_ && qj_ < old(len(msgTx.TxOut)) ==> msgTx.TxOut[qj_] == old(msgTx.TxOut[qj_])
+//@   loop#3 invariant forall qj_ int :: 0 <= qj_ && qj_ < old(len(msgTx.TxOut)) ==> msgTx.TxOut[qj_] == old(msgTx.TxOut[qj_])
 //@   loop#3 invariant validAmt(outAmounts) && validAmt(targetTxFee) && validAmt(adj) && changeOut == nil
 //@   at "break" assert[C02] amt(found) == amt(targetTxFee) + amt(outAmounts) + (b2i(changeOut != nil) * mathint(changeOut.Value)) && amt(found) == ghost("sumCredits", utxos)
